@@ -16,7 +16,7 @@ META = {
         'distance infinity; R3 simulate_root is forwarded to shortest_path / lowest_common_hypernyms (lcs.max_depth() exempt as '
         'documented); R4 no order-selected element (lcs_list[0], max(key=)) is taken from a hash-seed-ordered sequence; '
         'R5 formula anchors: the return expressions are the documented formulas. R7 nothing in similarity/taxonomy/ic is '
-        'memoised or kept in module-level state.'),
+        'memoised or kept in module-level state. R8 the taxonomy anchors behind path / wup / lch (C13-R5).'),
     'decides': ['POS check first in all six metrics', 'LCS error discipline', 'simulate_root forwarding', 'no seed-selected subsumer',
                 'formula anchors', 'no memoisation across Wordnet configurations'],
     'not_decided': ['numeric values, symmetry and bounds for all graphs'],
